@@ -250,6 +250,8 @@ class Policy:
     count_div: bool = True
     count_dt_overflow: bool = True
     count_invalid_state: bool = False  # Future.set_* -> InvalidStateError (typestate rule decides it)
+    count_dt_edge: bool = True  # datetime +/- a small bounded interval (overflows only within that interval of datetime.min/max)
+    implicit_only_tainted: bool = False  # implicit/arg-dependent raisers count only on operands derived from received text
     name: str = "default"
     # discharge(func, node, class) -> reason: a source proven infeasible by another rule (listed in evidence)
     discharge: "Callable[[FuncInfo, ast.AST, str, str], str | None] | None" = None
@@ -280,6 +282,9 @@ class ExcAnalysis:
         self.asserts_skipped: list[tuple[FuncInfo, ast.Assert]] = []
         self._future_exc_cache: dict[str, dict[str, Origin]] = {}
         self.discharged: dict[tuple[str, str, int], str] = {}
+        owner = getattr(self.policy.discharge, "__self__", None)
+        if owner is not None:
+            owner.ea = self  # oracles may use the analysis' bound evaluators
         self._solve()
 
     # -- public -----------------------------------------------------------------------
@@ -314,7 +319,7 @@ class ExcAnalysis:
         if isinstance(node, ast.stmt):
             return self.raised_at.get(id(node), Esc())
         self._f, self._record, self._final = f, False, False
-        self._tainted = self._taint_cache.get(f, set()) if self.policy.count_assert == "input" else set()
+        self._tainted = self._taint_cache.get(f, set())
         return self._expr(node)  # type: ignore[arg-type]
 
     def roots(self, f: FuncInfo, cls: str, limit: int = 400) -> list[tuple[Origin, list[FuncInfo]]]:
@@ -422,7 +427,7 @@ class ExcAnalysis:
         self._spec_depth = getattr(self, "_spec_depth", 0) + 1
         try:
             self._f, self._record, self._final = c, False, False
-            self._tainted = self._taint_cache.get(c) or (self._taint(c) if self.policy.count_assert == "input" else set())
+            self._tainted = self._taint_cache.get(c) or (self._taint(c) if (self.policy.count_assert == "input" or self.policy.implicit_only_tainted) else set())
             self._bind = bind
             res = self._block(c.node.body, caught=None)
         finally:
@@ -520,7 +525,7 @@ class ExcAnalysis:
         self._f = f
         self._record = record
         self._final = final
-        if self.policy.count_assert == "input":
+        if self.policy.count_assert == "input" or self.policy.implicit_only_tainted:
             if f not in self._taint_cache:
                 self._taint_cache[f] = self._taint(f)
             self._tainted = self._taint_cache[f]
@@ -734,6 +739,10 @@ class ExcAnalysis:
         def add(cls: str, why: str = "") -> None:
             out.setdefault(self.h.norm(cls), Origin("ext", f, call, why or ext))
 
+        if self.policy.implicit_only_tainted and (ext in ARG_DEPENDENT or ext.startswith("datetime.") or ext.startswith("builtins.")):
+            if not any(self._expr_tainted(a, self._tainted) for a in list(call.args) + [k.value for k in call.keywords] + ([call.func.value] if isinstance(call.func, ast.Attribute) else [])):
+                return out
+
         if ext == "json.loads":
             add("json.decoder.JSONDecodeError")
             at = self.cg.atoms(f, call.args[0]) if call.args else None
@@ -870,13 +879,15 @@ class ExcAnalysis:
     def _binop(self, n: ast.BinOp) -> dict[str, Origin]:
         f = self._f
         out = Esc()
+        if self.policy.implicit_only_tainted and not self._expr_tainted(n, self._tainted):
+            return out
         if isinstance(n.op, (ast.Div, ast.FloorDiv, ast.Mod)) and self.policy.count_div:
             lt = self.cg.atoms(f, n.left) or ("Any",)
             if isinstance(n.op, ast.Mod) and any(a in ("I:builtins.str", "I:builtins.bytes") for a in lt):
                 return out
             if isinstance(n.left, (ast.Constant, ast.JoinedStr)) and isinstance(getattr(n.left, "value", None), (str, bytes)):
                 return out
-            if not _is_nonzero_const(n.right) and not self._const_nonzero_name(n.right) and not (self.policy.nonzero and self.policy.nonzero(f, n.right)):
+            if not _is_nonzero_const(n.right) and not self._const_nonzero_name(n.right) and not (self.policy.nonzero and self.policy.nonzero(f, n.right)) and not _zero_guarded(n, n.right):
                 out["builtins.ZeroDivisionError"] = Origin("implicit", f, n, "division by a computed value")
         elif isinstance(n.op, (ast.Add, ast.Sub)) and self.policy.count_dt_overflow:
             lt = set(self.cg.atoms(f, n.left) or ())
@@ -885,7 +896,7 @@ class ExcAnalysis:
             if (dtm in lt and tdl in rt) or (tdl in lt and dtm in rt and isinstance(n.op, ast.Add)):
                 d_op, t_op = (n.left, n.right) if dtm in lt else (n.right, n.left)
                 b = self._td_bound(t_op)
-                if b is not None and b < 10 * 366 * 86400 and self._is_clock_value(d_op):
+                if b is not None and b < 10 * 366 * 86400 and (self._is_clock_value(d_op) or not self.policy.count_dt_edge):
                     return out  # wall clock +/- a bounded interval cannot leave datetime's range
                 out["builtins.OverflowError"] = Origin("implicit", f, n, "datetime +/- timedelta")
         elif isinstance(n.op, ast.Mult) and self.policy.count_dt_overflow:
@@ -1023,6 +1034,8 @@ class ExcAnalysis:
 
     def _subscript(self, n: ast.Subscript, load: bool = True) -> dict[str, Origin]:
         if not self.policy.count_keyerror:
+            return Esc()
+        if self.policy.implicit_only_tainted and not self._expr_tainted(n.slice, self._tainted):
             return Esc()
         f = self._f
         if isinstance(n.slice, ast.Slice) or _is_const(n.slice) or _is_const_name(n.slice):
@@ -1165,6 +1178,23 @@ class ExcAnalysis:
                 if a.arg in INPUT_PARAM_NAMES:
                     tainted.add(a.arg)
             fn = fn.parent
+        # a closure's parameter is tainted when its enclosing function passes a tainted argument
+        if f.parent is not None:
+            self._f, saved = f.parent, self._f
+            ptaint = self._taint_cache.get(f.parent)
+            if ptaint is None:
+                ptaint = self._taint_cache[f.parent] = self._taint(f.parent)
+            params = [a.arg for a in f.node.args.posonlyargs + f.node.args.args]
+            for n in ast.walk(f.parent.node):
+                if isinstance(n, ast.Call) and isinstance(n.func, ast.Name) and n.func.id == f.name:
+                    for p, a in zip(params, n.args):
+                        if self._expr_tainted(a, ptaint):
+                            tainted.add(p)
+                    for k in n.keywords:
+                        if k.arg and self._expr_tainted(k.value, ptaint):
+                            tainted.add(k.arg)
+            self._f = saved
+            tainted |= {t for t in ptaint if t not in {a.arg for a in f.node.args.args}}
         for _ in range(3):
             for n in ast.walk(f.node):
                 if isinstance(n, (ast.Assign, ast.AnnAssign, ast.AugAssign)) and n.value is not None:
@@ -1253,6 +1283,57 @@ def _is_nonzero_const(e: ast.expr) -> bool:
     except Exception:
         return False
     return isinstance(v, (int, float)) and v != 0
+
+
+def _zero_guarded(node: ast.AST, divisor: ast.expr) -> bool:
+    """Accepted idioms: an earlier `if not D: return/raise` (or `if D == 0`, `if D <= 0`) in an enclosing block;
+    the division sits in the body of `if D:` / `if D != 0` / `if D > 0`; `... if D else ...`."""
+    d = ast.unparse(divisor)
+
+    def falsy_test(t: ast.expr) -> bool:  # true when D is zero
+        if isinstance(t, ast.UnaryOp) and isinstance(t.op, ast.Not) and ast.unparse(t.operand) == d:
+            return True
+        if isinstance(t, ast.Compare) and len(t.ops) == 1 and ast.unparse(t.left) == d and isinstance(t.comparators[0], ast.Constant) and t.comparators[0].value == 0:
+            return isinstance(t.ops[0], (ast.Eq, ast.LtE))
+        if isinstance(t, ast.BoolOp) and isinstance(t.op, ast.Or):
+            return any(falsy_test(v) for v in t.values)
+        return False
+
+    def truthy_test(t: ast.expr) -> bool:  # true only when D is non-zero
+        if ast.unparse(t) == d:
+            return True
+        if isinstance(t, ast.Compare) and len(t.ops) == 1 and ast.unparse(t.left) == d and isinstance(t.comparators[0], ast.Constant) and t.comparators[0].value == 0:
+            return isinstance(t.ops[0], (ast.NotEq, ast.Gt))
+        if isinstance(t, ast.BoolOp) and isinstance(t.op, ast.And):
+            return any(truthy_test(v) for v in t.values)
+        return False
+
+    child: ast.AST = node
+    p = getattr(node, "parent", None)
+    while p is not None and not isinstance(p, (ast.FunctionDef, ast.AsyncFunctionDef, ast.Lambda, ast.Module)):
+        if isinstance(p, ast.IfExp):
+            if child is p.body and truthy_test(p.test):
+                return True
+            if child is p.orelse and falsy_test(p.test):
+                return True
+        if isinstance(p, ast.If):
+            if child in p.body and truthy_test(p.test):
+                return True
+            if child in p.orelse and falsy_test(p.test):
+                return True
+        for fld in ("body", "orelse", "finalbody"):
+            b = getattr(p, fld, None)
+            if isinstance(b, list) and child in b:
+                for st in b[: b.index(child)]:
+                    if isinstance(st, ast.If) and falsy_test(st.test) and st.body and isinstance(st.body[-1], (ast.Return, ast.Raise, ast.Continue, ast.Break)):
+                        return True
+        child = p
+        p = getattr(p, "parent", None)
+    if isinstance(p, (ast.FunctionDef, ast.AsyncFunctionDef)) and child in p.body:
+        for st in p.body[: p.body.index(child)]:
+            if isinstance(st, ast.If) and falsy_test(st.test) and st.body and isinstance(st.body[-1], (ast.Return, ast.Raise)):
+                return True
+    return False
 
 
 def _positive_in(t: ast.expr, key: str, cont: str) -> bool:
